@@ -1094,7 +1094,7 @@ fn dom_array_body<const N: usize>(inplace: bool) {
 
 /// C02/C03 M-dom-array (copying driver)
 #[kani::proof]
-#[kani::unwind(9)]
+#[kani::unwind(4)]
 #[kani::stub(crate::error::Error::syntax, crate::error::verif_kani_error::syntax_cut)]
 #[kani::stub(Parser::skip_space, model_skip_space)]
 #[kani::stub(Parser::parse_string_owned, model_parse_string_owned)]
@@ -1107,7 +1107,7 @@ fn m_dom_array2_n7() {
 
 /// C02/C03 M-dom-array (in-place driver)
 #[kani::proof]
-#[kani::unwind(9)]
+#[kani::unwind(4)]
 #[kani::stub(crate::error::Error::syntax, crate::error::verif_kani_error::syntax_cut)]
 #[kani::stub(Parser::skip_space, model_skip_space)]
 #[kani::stub(Parser::parse_string_inplace, model_parse_string_inplace)]
